@@ -46,19 +46,26 @@ Prog(name) ==
     [] name = "lcc_obj"        -> << <<"r", "lcc">> >>
     [] name = "albers_cea"     -> << <<"s", "AlbersEqualArea::CylindricalEqualArea">>, <<"r", "albers">> >>
     [] name = "albers_obj"     -> << <<"r", "albers">> >>
+    [] name = "albers_aea_north" -> << <<"s", "AlbersEqualArea::AzimuthalEqualAreaNorth">>, <<"r", "albers">> >>
+    [] name = "albers_aea_south" -> << <<"s", "AlbersEqualArea::AzimuthalEqualAreaSouth">>, <<"r", "albers">> >>
     [] name = "geoc_wgs84"     -> << <<"s", "Geocentric::WGS84">>, <<"r", "geoc">> >>
+    [] name = "geoc_obj"       -> << <<"r", "geoc">> >>
     [] name = "local_obj"      -> << <<"r", "local">>, <<"r", "geoc">> >>
     [] name = "ell_wgs84"      -> << <<"s", "Ellipsoid::WGS84">>, <<"r", "ell">>, <<"c", "aux">> >>
     [] name = "aux_series"     -> << <<"c", "aux">> >>
     [] name = "aux_exact"      -> << <<"r", "aux">> >>
+    \* an AuxLatitude made by the other documented route, AuxLatitude::axes(a, b), has its own cache
+    [] name = "aux_axes_series" -> << <<"c", "auxaxes">> >>
+    [] name = "aux_wgs84"      -> << <<"s", "AuxLatitude::WGS84">>, <<"c", "aux">> >>
     [] name = "daux_series"    -> << <<"c", "aux">> >>
     [] name = "elliptic_obj"   -> << <<"r", "ef">> >>
     [] name = "normgrav_wgs84" -> << <<"s", "NormalGravity::WGS84">>, <<"r", "ng">> >>
+    [] name = "normgrav_grs80" -> << <<"s", "NormalGravity::GRS80">>, <<"r", "ng">> >>
     [] name = "harmonic_obj"   -> << <<"r", "sh">>, <<"r", "roottable">> >>
     [] name = "circle_obj"     -> << <<"r", "circle">>, <<"r", "roottable">> >>
     [] name = "geoid_ts"       -> << <<"r", "geoid">> >>
     [] name = "utmups_fwd"     -> << <<"s", "TransverseMercator::UTM">>, <<"r", "tm">>, <<"s", "PolarStereographic::UPS">>, <<"r", "ps">> >>
-    [] name = "mgrs_fwd"       -> << <<"s", "TransverseMercator::UTM">>, <<"r", "tm">> >>
+    [] name = "mgrs_fwd"       -> << <<"s", "TransverseMercator::UTM">>, <<"r", "tm">>, <<"s", "PolarStereographic::UPS">>, <<"r", "ps">> >>
     [] name = "osgb_fwd"       -> << <<"s", "OSGB::OSGBTM">>, <<"s", "OSGB::northoffset">>, <<"r", "tm">> >>
     [] name = "dms_codec"      -> << <<"r", "dmstables">> >>
     [] name = "gridcodes"      -> << <<"s", "Geohash::shift">>, <<"r", "gridtables">> >>
@@ -88,7 +95,8 @@ Names == {"geod_wgs84", "geod_obj", "geodex_wgs84", "geodex_obj", "geodexact_tru
           "elliptic_obj", "normgrav_wgs84", "harmonic_obj", "circle_obj", "geoid_ts", "utmups_fwd", "mgrs_fwd", "osgb_fwd",
           "dms_codec", "gridcodes", "azeq_obj", "gnomonic_obj", "cassini_obj", "dst_obj",
           "gravmodel_obj", "gravcircle_obj", "gravmodel_circle", "magmodel_obj", "magcircle_obj", "magmodel_circle",
-          "geod_line_make", "geodex_line_make", "rhumb_line_make", "ps_obj", "tmx_obj", "ell_obj", "normgrav_obj", "geoid_ts_bilinear"}
+          "geod_line_make", "geodex_line_make", "rhumb_line_make", "ps_obj", "tmx_obj", "ell_obj", "normgrav_obj", "geoid_ts_bilinear",
+          "albers_aea_north", "albers_aea_south", "geoc_obj", "aux_axes_series", "aux_wgs84", "normgrav_grs80"}
 
 Threads == 1..NThreads
 
@@ -105,9 +113,12 @@ Step(t) == ProgOf(t)[pc[t]]
 Done(t) == pc[t] > Len(ProgOf(t))
 Statics == {"Geodesic::WGS84", "GeodesicExact::WGS84", "Rhumb::WGS84", "TransverseMercator::UTM", "TransverseMercatorExact::UTM",
             "PolarStereographic::UPS", "LambertConformalConic::Mercator", "AlbersEqualArea::CylindricalEqualArea", "Geocentric::WGS84",
-            "Ellipsoid::WGS84", "NormalGravity::WGS84", "OSGB::OSGBTM", "OSGB::northoffset", "Geohash::shift"}
+            "Ellipsoid::WGS84", "NormalGravity::WGS84", "OSGB::OSGBTM", "OSGB::northoffset", "Geohash::shift",
+            "AlbersEqualArea::AzimuthalEqualAreaNorth", "AlbersEqualArea::AzimuthalEqualAreaSouth", "NormalGravity::GRS80", "AuxLatitude::WGS84"}
+\* the statics whose use the driver can observe (singleton accessors and OSGB's north offset, intercepted at link time)
+Observable == Statics \ {"Geohash::shift"}
 Objs == {"geod", "geodex", "line", "lineex", "rhumb", "rhumbline", "aux", "tm", "tmx", "ps", "lcc", "albers", "geoc", "local", "ell",
-         "ef", "ng", "sh", "roottable", "circle", "geoid", "dmstables", "gridtables", "cassini", "dst", "gm", "mm", "gcirc", "mcirc", "geoidl"}
+         "ef", "ng", "sh", "roottable", "circle", "geoid", "dmstables", "gridtables", "cassini", "dst", "gm", "mm", "gcirc", "mcirc", "geoidl", "auxaxes"}
 
 \* the non-atomic memory access thread t performs in its NEXT micro-step: <<location, "R"/"W">> or <<>>
 NextAccess(t) ==
